@@ -183,6 +183,14 @@ def shutdown(ck, ctx, rule="fancy-shutdown"):
     oki = False
     for _, bb_, s_ in [x for x in Q.adt_constructors(F, "progress_fancy::FancyState") if x[0].nname == nb.nname]:
         oki = "done" in fields and NR.agg_op(bb_, s_, fields.index("done")) == ("const", 0)
+    # the handle joined by Drop is the thread spawned here (Drop unwraps it: a None would panic at exit)
+    okh = False
+    pfields = F.struct_fields("progress_fancy::FancyConsoleProgress") or []
+    for _, bb_, s_ in [x for x in Q.adt_constructors(F, "progress_fancy::FancyConsoleProgress") if x[0].nname == nb.nname]:
+        if "thread" in pfields:
+            e_ = strip(NR.agg_op(bb_, s_, pfields.index("thread")))
+            okh = e_[0] == "agg" and e_[3] == "Some" and any(c[1].endswith("thread::spawn") for c in calls_in(e_))
+    ck.ob(rule, "keeps-thread-handle", okh, "FancyConsoleProgress::new keeps Some(handle of the spawned render thread), which Drop takes and joins", span=nb.loc, fn=nb.nname)
     ck.ob(rule, "starts-not-done", oki, "the console starts with done = false (a render thread that sees done at once would exit and later output would only be kept, not shown)", span=nb.loc, fn=nb.nname)
     ck.functions.add(nb.nname)
     d = ck.need("fn Drop for FancyConsoleProgress", F.body("<progress_fancy::FancyConsoleProgress as std::ops::Drop>::drop"))
